@@ -1498,3 +1498,5 @@ package goatlang
 //@   reveal joinParams splitParams
 //@   requires -32768 <= a && a <= 32767 && -32768 <= b && b <= 32767
 //@   ensures fst(splitParams(joinParams(a, b))) == a && snd(splitParams(joinParams(a, b))) == b
+//@ func sameLine
+//@   inline
